@@ -282,7 +282,7 @@ def init_walkers(ctx):
                 return None
             if o == "@":
                 ol, orr = orth(l, depth + 1), orth(r, depth + 1)
-                return True if ol and orr else (False if ol is False or orr is False else None)
+                return True if ol and orr else None     # a product can re-orthonormalise (X (X^T X)^-1/2): no witness
             if o in ("/", "*"):
                 ol = orth(l, depth + 1)
                 orr = orth(r, depth + 1) if o == "*" else None
@@ -296,10 +296,10 @@ def init_walkers(ctx):
             f_, pos_, _ = call_parts(t)
             if fn_ in ("matmul", "dot") and len(pos_) == 2:
                 ol, orr = orth(pos_[0], depth + 1), orth(pos_[1], depth + 1)
-                return True if ol and orr else (False if ol is False or orr is False else None)
+                return True if ol and orr else None     # a product can re-orthonormalise (X (X^T X)^-1/2): no witness
             if f_.op == "attr" and f_.args[1] == "dot" and len(pos_) == 1:
                 ol, orr = orth(f_.args[0], depth + 1), orth(pos_[0], depth + 1)
-                return True if ol and orr else (False if ol is False or orr is False else None)
+                return True if ol and orr else None     # a product can re-orthonormalise (X (X^T X)^-1/2): no witness
         return None
 
     def _vec_factors(t):
